@@ -104,6 +104,7 @@ type client struct {
 
 	// stateMu guards authInfo, lastKeepaliveId and lastPongAt: they are shared
 	// by the keepalive, dispatcher and reconnect goroutines and AuthInfo callers
+	// (and the conn pointer for currentConn)
 	stateMu         sync.Mutex
 	lastKeepaliveId uint32
 	lastPongAt      time.Time
@@ -185,11 +186,23 @@ func (c *client) dial(ctx context.Context, dialer DialConnFunc) (err error) {
 		return err
 	}
 
+	c.stateMu.Lock()
 	c.conn = conn
+	c.stateMu.Unlock()
 	c.conn.OnPacket(c.onPacket)
 	c.conn.OnClose(c.onConnClose)
 
 	return nil
+}
+
+// currentConn is for readers of conn that must not wait for the client lock
+// (the dispatcher and the reconnect goroutine: a Do holds the read lock for
+// its whole duration and a pending writer blocks further readers). dial
+// replaces conn under both the client lock and stateMu.
+func (c *client) currentConn() ClientConn {
+	c.stateMu.Lock()
+	defer c.stateMu.Unlock()
+	return c.conn
 }
 
 func (c *client) onConnClose(err error) {
@@ -265,7 +278,7 @@ func (c *client) reconnecting() {
 				select {
 				case <-c.closeCh:
 					// closed while the attempt was authenticating
-					c.conn.Close(errors.New("close by client"))
+					c.currentConn().Close(errors.New("close by client"))
 					return
 				default:
 				}
@@ -315,8 +328,8 @@ func (c *client) reconnect() error {
 
 	c.reconnectCount = c.reconnectCount + 1
 
-	if c.conn != nil {
-		c.conn.Close(errors.New("close old conn for reconnect"))
+	if old := c.currentConn(); old != nil {
+		old.Close(errors.New("close old conn for reconnect"))
 	}
 
 	c.recvsMu.Lock()
@@ -339,7 +352,7 @@ func (c *client) reconnect() error {
 	// connection up instead of authenticating on it and reporting a reconnect
 	select {
 	case <-c.closeCh:
-		c.conn.Close(errors.New("close by client"))
+		c.currentConn().Close(errors.New("close by client"))
 		return errConnClosed
 	default:
 	}
@@ -507,9 +520,7 @@ func (c *client) closeByServer(packet *protocol.Packet) {
 
 	// do not hold the lock while closing: the conn's close callback runs
 	// reconnecting(), which takes the write lock
-	c.RLock()
-	conn := c.conn
-	c.RUnlock()
+	conn := c.currentConn()
 
 	if conn != nil {
 		conn.Close(errors.New("close by server"))
@@ -677,13 +688,16 @@ func (c *client) handlePing(packet *protocol.Packet) {
 		c.onPing(packet)
 	}
 
-	if !c.conn.NeedHandleControl() {
+	// runs on a dispatcher goroutine while reconnect may be replacing conn
+	conn := c.currentConn()
+
+	if !conn.NeedHandleControl() {
 		return
 	}
 
-	res, _ := protocol.NewResponse(c.conn.Context(), uint32(control.Command_CMD_HEARTBEAT), protocol.StatusSuccess, packet.Body, protocol.WithRequestId(packet.Metadata.RequestId))
+	res, _ := protocol.NewResponse(conn.Context(), uint32(control.Command_CMD_HEARTBEAT), protocol.StatusSuccess, packet.Body, protocol.WithRequestId(packet.Metadata.RequestId))
 
-	if err := c.write(&res); err != nil {
+	if err := conn.Write(&res, protocol.GzipSize(c.dialOptions.MinGzipSize)); err != nil {
 		c.Logger.Errorf("failed to send heartbeat ack, err: %v", err)
 	}
 }
